@@ -41,7 +41,7 @@ func runC16Winners(t *testing.T, c WinnersCase) (v *h.Violation, info h.Info) {
 func runC16WinnersBubble(c WinnersCase, info *h.Info) *h.Violation {
 	svc := fake.NewSvc()
 	svc.Set("d", 1, []byte("dv"))
-	svc.Set("x", 3, []byte("xv"))
+	svc.Set("x", 3, []byte(xVal))
 	st, err := setec.NewStore(context.Background(), setec.StoreConfig{Client: svc, Secrets: []string{"d"}, AllowLookup: true, PollInterval: -1, Logf: nolog})
 	if err != nil {
 		return h.V("harness", "NewStore: %v", err)
@@ -168,8 +168,8 @@ func runC16WinnersBubble(c WinnersCase, info *h.Info) *h.Violation {
 		if r.err != nil {
 			return h.V("not-failed-by-anothers-cancellation", "caller %d (%s), whose context was never cancelled, failed: %v - after %d winner(s) %v had been cancelled one after the other and with the service ready to answer the next request; requests: %s", i, c.Entries[i], r.err, len(cancelled), owners, fmtReqs(reqs))
 		}
-		if r.val != "xv" {
-			return h.V("working-handle", "caller %d got %q, the service serves %q", i, r.val, "xv")
+		if r.val != xVal {
+			return h.V("working-handle", "caller %d got %q, the service serves %q", i, r.val, xVal)
 		}
 	}
 	if survivors > 0 {
@@ -287,7 +287,9 @@ func runC16LookupCache(t *testing.T, c LookupCacheCase) (*h.Violation, h.Info) {
 	st.Close()
 	// outage + restart from that cache
 	svc2 := fake.NewSvc()
-	st2, err := setec.NewStore(context.Background(), setec.StoreConfig{Client: svc2, Secrets: []string{"d"}, AllowLookup: true, Cache: fake.NewCache(cache.Data()), PollInterval: -1, Logf: nolog})
+	bctx, bcancel := context.WithTimeout(context.Background(), 1500*time.Millisecond)
+	defer bcancel()
+	st2, err := setec.NewStore(bctx, setec.StoreConfig{Client: svc2, Secrets: []string{"d"}, AllowLookup: true, Cache: fake.NewCache(cache.Data()), PollInterval: -1, Logf: nolog})
 	if err != nil {
 		return h.V("cached-after-lookup", "a store restarted from the cache while the service is away: %v", err), info
 	}
